@@ -37,9 +37,11 @@ CLAIMS = {
  "C17": dict(text="Lean theorems: every error any evaluator function returns is located (G5, induction over all 23 functions), a located "
                   "error renders as `<l>:<c>:[ in 'f':] msg`, the stack trace has one line per active call ending at <root>, failures keep the "
                   "output printed so far (G3), success is silent; `decide` theorems over the tables regenerated from the source on every run (every context wrapper of the error enum "
-                  "is looked through by the CLI renderer or is a position/frame carrier); run-level correspondence of the full stderr text on "
+                  "is looked through by the CLI renderer or is a position/frame carrier); every position of every runtime diagnostic has line ≥ 1 "
+                  "(`diag_line_ge_one`); run-level correspondence of the full stderr text on "
                   "error kind × syntactic position × call depth × context; model-free oracle = stderr grammar, planted call chain vs stack "
-                  "trace, planted prints vs stdout, no internal identifiers. Known finding K1 is reported as KNOWN-FINDING.",
+                  "trace (call chains written in 12 call styles), planted prints vs stdout, no internal identifiers. Known findings K1, K6 are "
+                  "reported as KNOWN-FINDING.",
              ref="§6 C17", technique="Lean 4 theorems (err_located, render shape) + decide-theorems over extracted tables + stderr correspondence + grammar oracle"),
 
  "C01": dict(text="The Lean evaluator is the independent executable reading of docs/features.md. Theorems: the meaning of a terminating "
@@ -65,8 +67,9 @@ CLAIMS.update({
  "C02": dict(text="Lean theorem G4 (`no_crash`): from the initial state no evaluator function can reach any of the model's crash sites — "
                   "dangling address, empty scope chain, out-of-range index, arithmetic trap — except `print` of a value that contains itself "
                   "(the statement's own exclusion); proved by induction over all 23 mutually recursive evaluator functions from a heap "
-                  "well-formedness invariant (WF, list cells keep their length). The crash sites of the model are exactly the panic sites "
-                  "of the Rust code; the model is tied by run-level correspondence on the exhaustive alias-shape × operator product, the "
+                  "well-formedness invariant (WF, list cells keep their length). The crash sites of the model were written against the "
+                  "explicit panic sites and lock acquisitions of src/, which the translator lists per function on every run "
+                  "(`panic_sites_as_audited`, `decide`); the model is tied by run-level correspondence on the exhaustive alias-shape × operator product, the "
                   "extreme-integer grid, multi-byte string/interpolation literals and generated programs; model-free oracle: exit status ∈ "
                   "{0,103}, no panic.",
              ref="§6 C02", technique="Lean 4 invariant proof (well-formedness ⇒ no crash) over the evaluator model + differential correspondence + crash oracle"),
@@ -93,13 +96,16 @@ CLAIMS.update({
              ref="§6 C05", technique="Lean 4 frame/freshness theorems + heap-shape-exhaustive history correspondence + Python identity oracle"),
  "C06": dict(text="Lean theorems: `arith` is exact on Int ∩ i64 or reports IntOverflow (iff), division/remainder law and signs, comparisons "
                   "agree with order, literal value and 2^63 boundary, `_` separators ignored, range spec, op-assign = assign for any "
-                  "right-hand side that leaves the target unchanged (through the evaluator, using G1). Tie + Python big-integer oracle on the "
+                  "right-hand side that leaves the target unchanged (through the evaluator, using G1); `source_primitives_as_modelled` "
+                  "(`decide` over the i64 method and any raw operator each arm of `apply_binary_operation` uses, read off the source on "
+                  "every run). Tie + Python big-integer oracle on the "
                   "boundary grid × operators × plain/op-assign forms, random 64-bit pairs, literals and ranges.",
              ref="§6 C06", technique="Lean 4 exactness theorems on the arithmetic model + boundary-grid correspondence + big-integer oracle"),
  "C08": dict(text="Lean theorems: print/parse round trip for the WHOLE grammar — `parseStmts (print p) = p` up to positions for every "
                   "well-formed program (operators, `..`, postfix forms, list/object/function literals, every statement form; minimal "
                   "parentheses, the driver's fuel), `parse_sound` (the parser only produces well-formed trees), hence the well-formed trees "
-                  "are exactly the parser's image (`image_iff`) and printing is injective on them; left-associativity, tighter-tier-first, `..` loosest, "
+                  "are exactly the parser's image (`image_iff`) and printing is injective on them; with C09's lexer round trip, "
+                  "`front_end_roundtrip`: the printed SOURCE TEXT of every well-formed program parses back to it; left-associativity, tighter-tier-first, `..` loosest, "
                   "negative literal vs subtraction, parentheses override; `decide` theorems that the tier table extracted from the grammar "
                   "is the documented one. Tie at tree level; oracle: the generator's own tree must equal the implementation's dump for "
                   "minimal / full / redundant parenthesisations, exhaustive over operator sequences, CLI-confirmed with distinguishing values.",
@@ -109,7 +115,8 @@ CLAIMS.update({
                   "a break after an ineligible token does split, `;` and newline are the same token; lexer level: tokens do not depend "
                   "on the position the scan starts from, `skipWs_spec`, inserting blanks/comments at any token boundary leaves the token kinds "
                   "unchanged (`layout_invariance_at_boundary`), a newline at a boundary is a `;` (`newline_is_semicolon_at_boundary`), `_` in "
-                  "integer literals; a full lexer inverse (`lex_render`) is not attempted. Tie at token level (positions erased) and run level; oracle: layout "
+                  "integer literals; `lex_render`: the lexer round trip — lexing the canonical spelling of any well-formed token list gives the "
+                  "list back (exactly which terminators survive suppression is stated). Tie at token level (positions erased) and run level; oracle: layout "
                   "metamorphism on the implementation (same tokens, same output, diagnostics at the mapped position).",
              ref="§6 C09", technique="Lean 4 theorems on terminator suppression + decide-theorems over extracted tables + layout-metamorphism correspondence"),
  "C10": dict(text="Lean theorems: `==` on acyclic values equals equality of their tree unfoldings (so aliasing, construction and insertion "
@@ -137,7 +144,10 @@ CLAIMS.update({
  "C14": dict(text="Lean theorems: arguments evaluated once left to right before the callee, arity rule, parameters live in a fresh scope cell "
                   "on the closure chain (assigning one changes only that cell; mutating a passed container is shared), provenance: property/index "
                   "reads set the source object, variable/argument/list/return moves keep it, operators and literals drop it, `this` is bound iff "
-                  "the callee value has a source. Tie + generator-planted expected `this` over access-path histories.",
+                  "the callee value has a source; end to end through the evaluator: `method_call_this` (`o.f()` / `o[\"f\"]()` bind `this` to "
+                  "the object read from for this call, whatever source the stored value carries), `stored_method_keeps_this` (variable, "
+                  "argument, list), `plain_function_has_no_this`, `assign_replaces_provenance`. Tie + generator-planted expected `this` "
+                  "over access-path histories.",
              ref="§6 C14", technique="Lean 4 provenance and parameter-frame theorems + access-path history correspondence + planted-tag oracle"),
  "C15": dict(text="Lean theorems: `str_roundtrip` (lexing the escaped rendering of any byte/character sequence gives it back), `slots_exact` "
                   "(pieces and balanced slots are recovered in order), `interpolate_concat` (the value is the concatenation of pieces and slot "
@@ -149,15 +159,22 @@ CLAIMS.update({
  "C16": dict(text="Lean theorems: `applyBinOp` succeeds only on the documented operand kinds (`binop_domain`), rejects every other pair with "
                   "InvalidOpTypes naming operator and both kinds in order, results have the kind determined by the operator (no coercion), the two "
                   "type-name tables extracted from the source agree and are the documented names, `->type()` total except null, every typed "
-                  "context rejects the other kinds. Tie + oracle: the full finite matrix operator × kind × kind (plain and op-assign) × contexts, "
+                  "context rejects the other kinds; the operand-kind arms of `apply_binary_operation`, `eq` and `ref_eq` are read off the "
+                  "source on every run and are exactly the documented domain (`source_arms_are_the_documented_domain`, "
+                  "`model_domain_is_source_domain`; a guard or any unrecognised arm shape is an extraction error). Tie + oracle: the full finite matrix operator × kind × kind (plain and op-assign) × contexts, "
                   "run exhaustively in both tiers against an independently transcribed table.",
              ref="§6 C16", technique="Lean 4 case-analysis theorems over operator×kind matrix + decide-theorems over extracted type-name tables + exhaustive matrix correspondence"),
  "C18": dict(text="Lean theorems: the scanner's position after k characters is `posOf src k` (lines from 1, columns count characters, a "
                   "newline is column 0 of the next line), every token start and every lexical-error position is `posOf` of the offending "
                   "character, positions depend only on the preceding text (`pos_shift`), tab and multi-byte count one; `node_pos`: every "
                   "position stored in a parsed tree is the start of a token of the input (all 22 parser functions), `node_pos_src`: hence "
-                  "`posOf` of a character of the source; which stored position each diagnostic uses is checked by the tie. Tie at token/tree level with positions; oracle: "
-                  "planted offending tokens under layout rewrites with a 5-line Python reference. Known findings K2, K4.",
+                  "`posOf` of a character of the source; `eval_uses_node_pos`: every position of every runtime diagnostic (located nodes, call "
+                  "frames, payloads) is a position stored in the program tree or derived from a run-time slot parse (heap invariant over "
+                  "function and scope cells, all 23 evaluator functions), so without evaluated slots it is `posOf` of the first character "
+                  "of a token (`diag_pos_is_source_pos_partial`, with counterexamples for the unrestricted form: K2/K4); which stored "
+                  "position each diagnostic uses is checked by the tie. Tie at token/tree level with positions; oracle: "
+                  "planted offending tokens (undefined names in 33 operand positions) under layout rewrites with a 5-line Python reference. "
+                  "Known findings K2, K4, K5.",
              ref="§6 C18", technique="Lean 4 position theorems on scanner/lexer models + positioned tok/ast correspondence + planted-token oracle"),
  "C20": dict(text="Lean theorems: reading/assigning/op-assigning an undeclared name is `Undefined` at that name, declaring twice in one scope "
                   "is `AlreadyInScope` citing the earlier position and leaves the state unchanged, inner-scope redeclaration is allowed, all "
